@@ -268,16 +268,26 @@ func (w *World) ruleEcdsaScalarShape(rule string, gen *ssa.Function) {
 		w.viol(rule, fnKey(gen)+"/scalar", gen.Pos(), "no store of the private scalar (crypto/ecdsa.PrivateKey.D) is reachable from the ECDSA key generation")
 		return
 	}
-	// the HKDF output in gen's vocabulary
-	okm := ""
-	instrsFlat(gen, func(ins ssa.Instruction) {
-		if ex, ok := ins.(*ssa.Extract); ok && ex.Index == 0 {
-			if c, ok := ex.Tuple.(*ssa.Call); ok && c.Call.StaticCallee() != nil && strings.HasPrefix(c.Call.StaticCallee().String(), "crypto/hkdf.Key") {
-				okm = render(ex)
+	// the HKDF output in gen's vocabulary: the first result of hkdf.Key, computed in gen itself or handed back unchanged by
+	// an extracted helper
+	isHKDF := func(v ssa.Value) bool {
+		for i := 0; i < 4 && v != nil; i++ {
+			if ex, ok := v.(*ssa.Extract); ok && ex.Index == 0 {
+				if c, ok := ex.Tuple.(*ssa.Call); ok && c.Call.StaticCallee() != nil && strings.HasPrefix(c.Call.StaticCallee().String(), "crypto/hkdf.Key") {
+					return true
+				}
 			}
+			v = helperValue(v)
+		}
+		return false
+	}
+	okms := map[string]bool{}
+	instrsFlat(gen, func(ins ssa.Instruction) {
+		if v, ok := ins.(ssa.Value); ok && isHKDF(v) {
+			okms[render(v)] = true
 		}
 	})
-	if okm == "" {
+	if len(okms) == 0 {
 		w.undecided(rule, fnKey(gen)+"/okm", gen.Pos(), "unresolved anchor: HKDF output in the ECDSA key generation")
 		return
 	}
@@ -299,9 +309,14 @@ func (w *World) ruleEcdsaScalarShape(rule string, gen *ssa.Function) {
 			continue
 		}
 		// the curve order: Params().N of a curve held by the algorithm object (receiver field)
-		want := fmt.Sprintf("((int(%s) mod (%s.<curve>.Params().N - 1)) + 1)", okm, recv)
-		pre, suf := fmt.Sprintf("((int(%s) mod (%s.", okm, recv), ".Params().N - 1)) + 1)"
-		okk := strings.HasPrefix(got, pre) && strings.HasSuffix(got, suf) && !strings.ContainsAny(got[len(pre):len(got)-len(suf)], " ()")
+		okk, want := false, ""
+		for okm := range okms {
+			want = fmt.Sprintf("((int(%s) mod (%s.<curve>.Params().N - 1)) + 1)", okm, recv)
+			pre, suf := fmt.Sprintf("((int(%s) mod (%s.", okm, recv), ".Params().N - 1)) + 1)"
+			if strings.HasPrefix(got, pre) && strings.HasSuffix(got, suf) && !strings.ContainsAny(got[len(pre):len(got)-len(suf)], " ()") {
+				okk = true
+			}
+		}
 		w.check(okk, rule, key, st.Pos(), "private scalar = (int(OKM) mod (N-1)) + 1 over the whole HKDF output",
 			"the private scalar is `"+got+"`, documented derivation is `"+want+"` (whole HKDF output, reduced modulo N-1, plus one)")
 	}
